@@ -124,8 +124,10 @@ fn exec_huge(case: &Case, stats: &mut Stats) -> RunOut<Case> {
         // below 1 GiB the whole prefix is scanned after every call; above, the first and last 64 MiB after every
         // call (where a wrapped or truncated index lands) and the whole prefix once more at the end of the batch
         let w = 64usize << 20;
-        let zero = if n <= (1usize << 30) { all_zero(&data[..n]) } else { all_zero(&data[..w]) && all_zero(&data[n - w..n]) };
-        let prefix_ok = data.len() >= before_len && zero && data[n..before_len] == tail_before[..];
+        // a call that replaced or truncated the buffer must be reported, not indexed into
+        let prefix_ok = data.len() >= before_len
+            && (if n <= (1usize << 30) { all_zero(&data[..n]) } else { all_zero(&data[..w]) && all_zero(&data[n - w..n]) })
+            && data[n..before_len] == tail_before[..];
         if !prefix_ok {
             let at = data.iter().take(n.min(data.len())).position(|b| *b != 0);
             violations.push((
